@@ -45,7 +45,7 @@ func TypeName(t types.Type) string {
 	if n.Obj().Pkg() == nil {
 		return n.Obj().Name()
 	}
-	return short(n.Obj().Pkg().Path()) + "." + n.Obj().Name()
+	return short(n.Obj().Pkg().Path() + "." + n.Obj().Name())
 }
 
 // FieldOf returns the struct field selected by a FieldAddr or Field instruction.
